@@ -106,9 +106,14 @@ func one(c *Ctx, src []byte, toModel bool, s *st) {
 		if t2 == nil || !bytes.Equal(t1, t2) {
 			s.notfix++
 			sig := "idempotence-unclassified:" + mode
-			if p := KnownPatterns(prog); len(p) > 0 {
-				sig = "idempotence:" + p[0]
-				s.known++
+			// only the patterns that are recorded C03 findings can explain a non-fixpoint (a + (b + c) reaches its fixpoint
+			// after the first formatting)
+			for _, p := range KnownPatterns(prog) {
+				if p == "statement-starts-with-prefix-operator" || p == "number-dot-index" || p == "comment-in-expression-position" || p == "bare-return-followed-by-statement" {
+					sig = "idempotence:" + p
+					s.known++
+					break
+				}
 			}
 			c.Fail(sig, cs, fmt.Sprintf("mode=%s src=%q f=%q ff=%q", mode, src, t1, t2))
 		} else {
@@ -143,7 +148,9 @@ func run(c *Ctx) {
 	}
 	var s st
 	for _, src := range []string{"p = `^\\d+$`", "p = \"^\\\\d+$\"", "q = \"raw\"; r = `raw`", "a;-b", "(1).x", "a // t\n+b", "a +\n// c\n b", "func f(){return // c\na}", "a+(b+c)", "x // t\n/* b */ y", "if a { // c\nb}", "// only\n", "", "/* a */ /* b */ x",
-		"func f(){\n// c\n}", "a // t1\n// t2\nb", "{1:2} // t", "x = [1,\n2]", "for i=0:3 { /* in */ }"} {
+		"func f(){\n// c\n}", "a // t1\n// t2\nb", "{1:2} // t", "x = [1,\n2]", "for i=0:3 { /* in */ }",
+		"if a { 1 /* yes */ } else { 2 /* no */ }", "if x {1} else { // c\n if y {2} }", "func f() { x /* why */ }\nb = 2", "/* c */ if a {b}",
+		"if a {1} else { /* c */ if b {2} else {3} }", "for i=0:3 { a /* e */ }\nb"} {
 		one(c, []byte(src), true, &s)
 	}
 	n := 1200
